@@ -76,7 +76,8 @@ namespace foonathan
 
                     auto remaining = std::size_t(end - cur_);
                     auto offset    = align_offset(cur_ + fence_size, alignment);
-                    if (fence_size + offset + size + fence_size > remaining)
+                    // size first: the sum must not overflow for huge sizes
+                    if (size > remaining || fence_size + offset + fence_size > remaining - size)
                         return nullptr;
 
                     return allocate_unchecked(size, offset, fence_size);
